@@ -654,7 +654,8 @@ def quick_plan(seed, args):
     return [
         ("template", tmpl),
         ("inject", list(range(gen.N_INJECT_TEMPLATES))),
-        ("slowpairs", list(range(gen.N_SLOWPAIRS))),
+        # the ordered pairs of the less common queries likewise (thorough: all)
+        ("slowpairs", [i for i in range(gen.N_SLOWPAIRS) if (i + seed) % 2 == 0]),
         ("fork3", list(range(gen.N_FORK3))),
         ("big", list(range(gen.N_BIG))),
         ("kwpairs", list(range(gen.N_KWPAIRS))),
